@@ -231,7 +231,14 @@ namespace sim
 #endif
 #ifdef IP_MTU_DISCOVER
 			if (opt.level(p) == IPPROTO_IP && opt.name(p) == IP_MTU_DISCOVER)
-				m_dont_fragment = *reinterpret_cast<int const*>(opt.data(p)) == IP_PMTUDISC_DO;
+			{
+				int const value = *reinterpret_cast<int const*>(opt.data(p));
+				m_dont_fragment = value == IP_PMTUDISC_DO;
+#ifdef IP_PMTUDISC_PROBE
+				// probing also sets the don't-fragment bit on every datagram
+				if (value == IP_PMTUDISC_PROBE) m_dont_fragment = true;
+#endif
+			}
 #endif
 		}
 
